@@ -17,7 +17,8 @@ def main():
     for s in scripts:
         beats = rng.choice([0, 0, 1, 3])
         s = dict(s, poke=rng.random() < 0.7)   # the telemetry bridge hands metric facets to the emitter during and after the run
-        obs = cl.run_script(s, with_lineage=True, beats=beats, race=rng.random() < 0.5)
+        race = rng.random() < 0.5
+        obs = cl.run_script(s, with_lineage=True, beats=beats, race=race, slow=race and rng.random() < 0.3)
         cl.life_oracle(run, s, obs, {'C18'})
         ev = [e for e, _ in obs['events']]
         run.seen(('lin', cl.script_lit(s), beats), nontrivial=bool(ev))
